@@ -92,7 +92,7 @@ def main():
         res = {}
         with ThreadPoolExecutor(16) as ex:
             for p, rc, lines in ex.map(one, props):
-                res[p] = {"rc": rc, "lines": [l[:260] for l in lines[:6]]}
+                res[p] = {"rc": rc, "lines": [l[:260] for l in lines[:40]]}
         out["checks"] = {p: r for p, r in res.items() if r["rc"] != 0}
         out["detected_by"] = sorted(p for p, r in res.items() if r["rc"] == 1)
         out["analysis_errors"] = sorted(p for p, r in res.items()
